@@ -20,6 +20,7 @@ META = {
     "trusted_base": ["std::sync::RwLock / tokio::sync::RwLock are linearizable reader-writer locks", "rustc borrow checker", "rustc MIR construction"],
     "assumptions": [],
 }
+META["explanation"] += ' R04.1 counts acquisitions made in private helpers of the wrapper as its own (virtual inlining); R01.1 (every mutable borrow of the value reaches the version bump in the same function) is evaluated here too: a value written in one critical section and the version bumped in another is visible with the old version.'
 
 ACQ = r"^(std::sync::RwLock|tokio::sync::RwLock)::<.*>::(write|read|try_write|try_read|blocking_write|blocking_read|write_owned|read_owned)$"
 EXCL = r"::(write|try_write|blocking_write|write_owned)$"
@@ -36,8 +37,10 @@ def run(ctx):
     from . import c01, groups
     closes = find_close_fn(F)
     notify = find_notify_fn(F)
-    if len(closes) == 1 and len(notify) == 1:
-        init = c01.r01_5(ctx, notify[0], closes[0], closes[0][2])
+    if len(closes) == 1 and notify:
+        nset = c01.NotifySet(notify)
+        c01.r01_1(ctx, nset)   # a value written without the version bump in the same step is visible with the old version
+        init = c01.r01_5(ctx, nset, closes[0], closes[0][2])
         c01.r01_6(ctx, init)
         c01.r01_7(ctx, init)
     groups.eyeball_close_and_wake(ctx)
@@ -57,21 +60,24 @@ def r04_1(ctx):
         if not bodies or not bodies[0].built:
             continue
         main = bodies[0]
-        b = main.built
+        b = inl(F, main, *sfns) or main.built   # acquisitions made in private helpers of the wrapper count as its own
         n += 1
         acqs = []
         for lb in bodies:
-            if lb.built:
-                acqs += [(lb, blk, t) for blk, t in lb.built.calls(ACQ)]
+            lbb = b if lb is main else lb.built
+            if lbb:
+                acqs += [(lb, blk, t) for blk, t in lbb.calls(ACQ)]
         ctx.call_sites += len(acqs)
         if f.name == "take":
             sets = [(blk, t) for blk, t in b.calls() if F.local_callee(main, t) is not None and F.local_callee(main, t).name == "set"
                     and (F.local_callee(main, t).raw.get("self_ty") or "") == st]
-            ok = len(sets) == 1 and not acqs
-            ctx.verdict(ok, "R04.1", f, "one-critical-section", f.loc(), "take delegates to a single call of Self::set and takes no lock itself",
-                        "take performs %d lock acquisition(s) of its own and %d call(s) of set: not one atomic step" % (len(acqs), len(sets)))
-            continue
-        on_state = [(lb, blk, t) for lb, blk, t in acqs if mentions_field(lb.built.expr_of_op(t["args"][0]), "state")]
+            if sets or not acqs:
+                ok = len(sets) == 1 and not acqs
+                ctx.verdict(ok, "R04.1", f, "one-critical-section", f.loc(), "take delegates to a single call of Self::set and takes no lock itself",
+                            "take performs %d lock acquisition(s) of its own and %d call(s) of set: not one atomic step" % (len(acqs), len(sets)))
+                continue
+            # take written against the state directly: judged like every other writer below
+        on_state = [(lb, blk, t) for lb, blk, t in acqs if mentions_field((b if lb is main else lb.built).expr_of_op(t["args"][0]), "state")]
         scalls = [(blk, t) for blk, t in b.calls() if F.local_callee(main, t) in sfns]
         where = b.line_at((on_state[0][1], 10 ** 6)) if on_state and on_state[0][0] is main else f.loc()
         if len(on_state) != 1:
